@@ -1063,7 +1063,7 @@ static int compile_file(const char *input_file, const char *output_file, Compile
     }
 
     int cmd_len = snprintf(compile_cmd, sizeof(compile_cmd),
-            "%s -std=c99 -fwrapv -Wall -Wextra -Werror -Wno-error=unused-function -Wno-error=unused-parameter -Wno-error=unused-variable -Wno-error=unused-but-set-variable -Wno-error=logical-not-parentheses -Wno-error=duplicate-decl-specifier %s %s %s -o %s %s %s %s %s %s",
+            "%s -std=c99 -fwrapv -Wall -Wextra -Werror -Wno-error=unused-function -Wno-error=unused-parameter -Wno-error=unused-variable -Wno-error=unused-but-set-variable -Wno-error=logical-not-parentheses -Wno-error=duplicate-decl-specifier -Wno-error=overflow -Wno-error=tautological-compare %s %s %s -o %s %s %s %s %s %s",
             cc, profile_flags, include_flags_with_tmp, export_dynamic_flag, output_file, temp_c_file, module_objs, runtime_files, lib_path_flags, lib_flags);
     
     if (cmd_len >= (int)sizeof(compile_cmd)) {
